@@ -238,6 +238,16 @@ def _raise_before_frame(fn, attr, fname):
     if all(a < calls[0] for a in asg):
         return True
     if all(a > calls[0] for a in asg):
+        # the shape the model has for False: the assignment sits in the same `if <new value> != <sent field>:` block as
+        # start_frame(), after it -- the attribute is assigned ONLY next to a written frame (anything else fails closed)
+        blocks = [n for n in ast.walk(fn) if isinstance(n, ast.If) and not n.orelse
+                  and any(isinstance(m, ast.Call) and isinstance(m.func, ast.Attribute) and m.func.attr == "start_frame"
+                          for b in n.body for m in ast.walk(b))]
+        if not blocks:
+            raise ValueError("C07 consts: %s: start_frame() is not inside an if block" % fname)
+        inner = min(blocks, key=lambda n: n.end_lineno - n.lineno)
+        if not all(inner.lineno < a <= inner.end_lineno for a in asg):
+            raise ValueError("C07 consts: %s assigns .%s outside the block that writes the frame" % (fname, attr))
         return False
     raise ValueError("C07 consts: %s assigns .%s on both sides of start_frame()" % (fname, attr))
 
